@@ -185,4 +185,24 @@ theorem filter_nogap (gap : Char) (s : List Char) (h : gap ∉ s) : s.filter (fu
 /-- gap-free sequence of the molecular type -/
 def GapFree (q : NSeq) : Prop := q.gap ∉ q.chars
 
+/-- successive complete codons of a text -/
+def chunks3 : List Char → List (List Char)
+  | a :: b :: c :: rest => [a, b, c] :: chunks3 rest
+  | _ => []
+
+theorem chunks3_short (d : List Char) (h : d.length < 3) : chunks3 d = [] := by
+  match d with
+  | [] => rfl
+  | [_] => rfl
+  | [_, _] => rfl
+  | _ :: _ :: _ :: _ => simp at h; omega
+
+theorem pyRange_codons (str : List Char) :
+    pyRange (0 : Int) (pyLen str - 2) 3 = pyRangeAux (str.length / 3) ((0 : Nat) : Int) 3 := by
+  unfold pyRange pyLen
+  rw [if_pos (by omega)]
+  congr 1
+  omega
+
+
 end CogentModel.GCP
